@@ -126,6 +126,18 @@ Definition at7 (p : pc) : bool := match p with SS7 _ => true | _ => false end.
 Definition at8 (p : pc) : bool := match p with SS8 _ => true | _ => false end.
 Definition at9 (p : pc) : bool := match p with SS9 _ => true | _ => false end.
 Definition at_sd4 (p : pc) : bool := match p with SD4 _ _ => true | _ => false end.
+(* Listener.Replace between Lock and Unlock (incl. the Close of a failed bind) *)
+Definition lr_cs (p : pc) : bool :=
+  match p with
+  | LR1 _ | LR2 _ | LR3 _ | LR4 | LR5 => true
+  | LC0 RRepl | LC1 RRepl | LC2 RRepl | LC3 RRepl | LC4 RRepl => true
+  | SD0 _ RRepl | SD1 _ RRepl _ | SD2 _ RRepl _ | SD3 _ RRepl _ | SD4 _ RRepl => true
+  | SC0 RRepl | SC1 RRepl | SC2 RRepl | SC3 RRepl | SC4 RRepl | SC5 RRepl | SC6 RRepl => true
+  | _ => false
+  end.
+Definition at_lr1 (p : pc) : bool := match p with LR1 _ => true | _ => false end.
+Definition at_lr23 (p : pc) : bool := match p with LR2 _ | LR3 _ => true | _ => false end.
+Definition at_lr4 (p : pc) : bool := match p with LR4 => true | _ => false end.
 (* Listener.listen before / up to its last step *)
 Definition lt_pre (p : pc) : bool := match p with LT0 | LT1 | LT2 | LT3 => true | _ => false end.
 Definition lt_all (p : pc) : bool := match p with LT0 | LT1 | LT2 | LT3 | LT4 => true | _ => false end.
@@ -204,7 +216,11 @@ Record Inv (pool : list pc) (w : world) : Prop := {
   i_a2 : active w <> 0 -> cnt ss49 pool = 0;
   i_a2' : b2n (is_closed (sv_new w)) = 1 -> active w = 0;
   i_a3 : cnt lt_all pool + b2n (is_closed (l_done w)) = 1;
-  i_a4 : is_nil (l_done w) = false
+  i_a4 : is_nil (l_done w) = false;
+  i_r1 : cnt lr_cs pool = b2n (l_rlock w);
+  i_r2 : b2n (l_nil w) <= b2n (l_repl w);
+  i_r3 : cnt at_lr4 pool + b2n (l_nil w) <= 1;
+  i_r4 : cnt at_lr23 pool <= b2n (l_repl w)
 }.
 
 (* ------------------------------------------------------------------------------------------ *)
@@ -242,7 +258,7 @@ Ltac destruct_chans :=
 (* preservation                                                                                 *)
 Ltac destruct_world w :=
   let c := fresh "c" in let v := fresh "v" in
-  destruct w as [c v li dq cx rc c2 cb ss g1 g2 g3 lcg lcd lwc ld sk lx rn sx ac dl n1 n2 n3 n4 n5];
+  destruct w as [c v li dq cx rc c2 cb ss g1 g2 g3 lcg lcd lwc ld sk lx rn sx ac dl n1 n2 n3 n4 n5 lrp lnl lrk];
   destruct c as [cg sh cd sc wc rcc cr sw chn sd wk rv dn mx pk wt lk];
   destruct v as [cg' sh' cd' sc' wc' rcc' cr' sw' chn' sd' wk' rv' dn' mx' pk' wt' lk'].
 
@@ -253,7 +269,7 @@ Ltac destruct_pc_args :=
 
 Ltac destruct_inv HI :=
   destruct HI as [Hcl Hce Hlt Hrun Hokc Hokv Hmuxc Hdnc Hdnv Hl1 Hl2 Hdc Hdv Hxc Hkc Hkv Hv1 Hv0 Hn1 Hn2 Hn3 Hn4 Hn5 Hv2a Hv2b Hv2c Hv2d Hv5 Hv6 Hv7 Hv8 Hv9
-                  Hw6 Hw7 Hw8 Hw9 Hsd4 Ha1 Ha2 Ha2' Ha3 Ha4].
+                  Hw6 Hw7 Hw8 Hw9 Hsd4 Ha1 Ha2 Ha2' Ha3 Ha4 Hr1 Hr2 Hr3 Hr4].
 
 Ltac use_section Hok :=
   match goal with
@@ -276,6 +292,9 @@ Lemma at8_le l : cnt at8 l <= cnt ss59 l. Proof. apply cnt_le; intros []; simpl;
 Lemma at9_le l : cnt at9 l <= cnt ss59 l. Proof. apply cnt_le; intros []; simpl; congruence. Qed.
 Lemma ss59_le l : cnt ss59 l <= cnt ss49 l. Proof. apply cnt_le; intros []; simpl; congruence. Qed.
 Lemma ss59_split l : cnt at5 l + cnt at6 l + cnt at7 l + cnt at8 l + cnt at9 l = cnt ss59 l.
+Proof. induction l as [|a l IH]; simpl; auto. destruct a; simpl; lia. Qed.
+
+Lemma lr_split l : cnt at_lr1 l + cnt at_lr23 l + cnt at_lr4 l <= cnt lr_cs l.
 Proof. induction l as [|a l IH]; simpl; auto. destruct a; simpl; lia. Qed.
 
 Ltac simp_cnt Hn :=
@@ -301,10 +320,10 @@ Ltac facts Hn q :=
   pf in_listen Hn q; pf pre_sd0_cli Hn q; pf (pend Cli) Hn q; pf (pend Srv) Hn q; pf skip_cli Hn q;
   pf (cs Cli) Hn q; pf (cs Srv) Hn q; pf at_sd4 Hn q;
   pf ss59 Hn q; pf ss49 Hn q; pf at5 Hn q; pf at6 Hn q; pf at7 Hn q; pf at8 Hn q; pf at9 Hn q;
-  pf lt_pre Hn q; pf lt_all Hn q;
+  pf lt_pre Hn q; pf lt_all Hn q; pf lr_cs Hn q; pf at_lr1 Hn q; pf at_lr23 Hn q; pf at_lr4 Hn q;
   match type of Hn with nth_error ?l _ = _ =>
     pose proof (at5_le l); pose proof (at6_le l); pose proof (at7_le l); pose proof (at8_le l);
-    pose proof (at9_le l); pose proof (ss59_le l); pose proof (ss59_split l)
+    pose proof (at9_le l); pose proof (ss59_le l); pose proof (ss59_split l); pose proof (lr_split l)
   end.
 
 Ltac split_ifs :=
@@ -358,7 +377,8 @@ Ltac gf f Hn :=
 Ltac ge_facts Hn :=
   gf in_listen Hn; gf pre_sd0_cli Hn; gf (pend Cli) Hn; gf (pend Srv) Hn; gf skip_cli Hn;
   gf (cs Cli) Hn; gf (cs Srv) Hn; gf at_sd4 Hn; gf ss59 Hn; gf ss49 Hn; gf at5 Hn; gf at6 Hn; gf at7 Hn;
-  gf at8 Hn; gf at9 Hn; gf lt_pre Hn; gf lt_all Hn.
+  gf at8 Hn; gf at9 Hn; gf lt_pre Hn; gf lt_all Hn; gf lr_cs Hn; gf at_lr1 Hn; gf at_lr23 Hn; gf at_lr4 Hn;
+  match type of Hn with nth_error ?l _ = _ => pose proof (lr_split l) end.
 
 Ltac no_section Hok :=
   match goal with
@@ -388,7 +408,12 @@ Proof.
            end;
     try no_section Hokc; try no_section Hokv;
     inversion He; subst; clear He;
-    cbn in *; try absurd_eq; ge_facts Hn; arith.
+    cbn in *; try absurd_eq;
+    repeat match goal with
+           | H : ?x = false |- _ => is_var x; subst x
+           | H : ?x = true |- _ => is_var x; subst x
+           end;
+    ge_facts Hn; arith.
 Qed.
 
 (* ------------------------------------------------------------------------------------------ *)
@@ -450,7 +475,7 @@ Qed.
 
 (* ------------------------------------------------------------------------------------------ *)
 (* the threads of a server teardown (used by the second invariant) *)
-Definition ret_td (r : ret) : bool := match r with RDone => false | _ => true end.
+Definition ret_td (r : ret) : bool := match r with RDone | RRepl => false | _ => true end.
 Definition srv_td (p : pc) : bool :=
   match p with
   | SV0 | SV1 | SV2 | SS0 _ | SS1 _ | SS2 _ | SS3 _ | SS4 _ | SS5 _ | SS6 _ | SS7 _ | SS8 _ | SS9 _ => true
@@ -542,7 +567,7 @@ Ltac le_solve :=
 Lemma step_le m p w w' p' : exec m p w = Step w' p' -> world_le w w' = true.
 Proof.
   intros He.
-  destruct w as [c v li dq cx rc c2 cb ss g1 g2 g3 lcg lcd lwc ld sk lx rn sx ac dl n1 n2 n3 n4 n5].
+  destruct w as [c v li dq cx rc c2 cb ss g1 g2 g3 lcg lcd lwc ld sk lx rn sx ac dl n1 n2 n3 n4 n5 lrp lnl lrk].
   destruct c as [cg sh cd sc wc rcc cr sw chn sd wk rv dn mx pk wt lk].
   destruct v as [cg' sh' cd' sc' wc' rcc' cr' sw' chn' sd' wk' rv' dn' mx' pk' wt' lk'].
   destruct p; try (destruct d); cbn in He; unfold close_fault in He;
@@ -1157,13 +1182,13 @@ Proof.
            destruct IH as [IH|(p' & A & B & C)]; auto. right. exists p'. simpl in *. repeat split; auto; lia.
         -- (* CR2 *)
            match goal with |- context [run New rest (set_nth 0 CR3 pool) ?w1] =>
-             assert (Ec1 : Closing (cli w1) = false) by (destruct w as [[] ? ? ? ? ? ? ? ? ? ? ? ? ? ? ? ? ? ? ? ? ? ? ? ? ? ?]; exact Ec);
+             assert (Ec1 : Closing (cli w1) = false) by (destruct w as [[] ? ? ? ? ? ? ? ? ? ? ? ? ? ? ? ? ? ? ? ? ? ? ? ? ? ? ? ? ?]; exact Ec);
              specialize (IH (set_nth 0 CR3 pool) w1 CR3 (nth_error_set_nth_same _ _ _ _ Hn) ltac:(right; simpl; lia));
              destruct (run New rest (set_nth 0 CR3 pool) w1); auto end.
            destruct IH as [IH|(p' & A & B & C)]; auto. right. exists p'. simpl in *. repeat split; auto; lia.
         -- (* CR3 *)
            match goal with |- context [run New rest (set_nth 0 CR4 pool) ?w1] =>
-             assert (Ec1 : Closing (cli w1) = true) by (destruct w as [[] ? ? ? ? ? ? ? ? ? ? ? ? ? ? ? ? ? ? ? ? ? ? ? ? ? ?]; unfold Closing; simpl; apply orb_true_r);
+             assert (Ec1 : Closing (cli w1) = true) by (destruct w as [[] ? ? ? ? ? ? ? ? ? ? ? ? ? ? ? ? ? ? ? ? ? ? ? ? ? ? ? ? ?]; unfold Closing; simpl; apply orb_true_r);
              destruct (run New rest (set_nth 0 CR4 pool) w1) eqn:R; auto; left; eapply Closing_stays; eauto end.
       * assert (Eb : Nat.eqb i 0 = false) by (apply Nat.eqb_neq; auto). rewrite Eb. cbn [Nat.add].
         destruct (exec New q w) as [w1 q1| |f] eqn:E; auto.
@@ -1219,4 +1244,9 @@ Proof.
   split; [apply (i_okc _ _ HI) | apply (i_okv _ _ HI)].
 Qed.
 
-
+Lemma replace_history_example :
+  match model_run New false false false true false [[21]; [20]; [10]]%Z with
+  | Running pool w => forallb quiescent_pc (skipn (length service) pool) && is_closed (l_done w) && negb (l_repl w) && negb (l_nil w)
+  | Faulted _ _ => false
+  end = true.
+Proof. vm_compute. reflexivity. Qed.
